@@ -18,8 +18,8 @@ Oracles (the property itself, evaluated on navis' output, independent of the mod
  nodes and coordinates unchanged; every old edge kept; #added = #fragments before − after; result a well-formed,
  correctly labelled forest (`f.wf`, and the Lean checker `healOKB`, proved sound in Props/C11); one tree when no
  limit applies; no added edge as long as `max_dist`; added edges join allowed nodes only; the total added length
- is minimal — TESTED by exhaustive enumeration of the spanning forests of the fragment quotient graph for
- ≤ 6 fragments (a test, not a proof; the proved part is the cut property `heal_minimal_partial`);
+ is minimal — TESTED on navis' output by exhaustive enumeration of the spanning forests of the fragment quotient
+ graph for ≤ 6 fragments (a test of the real code; for the MODEL minimality is a theorem, `kruskal_minimal`);
  fragments partition the nodes and coincide with "same root"; after stitching ids are unique, every input keeps
  its topology and coordinates under the induced id map, connectors and tags follow that map.
 Back-ends: every case runner takes `be` (harness/backends.py); the thorough tier repeats the heal and fragment
@@ -790,8 +790,9 @@ def run(ctx, be=None):
                     _run_case(ctx, kind, case, b)
             finally:
                 ctx.rng = saved
-    ctx.notes.append('minimality of the total added length is a TEST (exhaustive enumeration of spanning forests of the '
-                     'quotient graph, ≤ 6 fragments); the proved part is the cut property (Props/C11 heal_minimal_partial)')
+    ctx.notes.append('minimality of the total added length on navis\' own output is a TEST (exhaustive enumeration of the spanning '
+                     'forests of the quotient graph, ≤ 6 fragments); for the model it is proved (Props/C11 kruskal_minimal) and '
+                     'transfers through the exact correspondence of the added edges on tie-free inputs')
 
 
 def replay(ctx, rp):
@@ -804,3 +805,94 @@ def replay(ctx, rp):
             RUNNERS[kind](ctx, case, be)
     else:
         RUNNERS[kind](ctx, case, None)
+
+
+# ---------------------------------------------------------------------------------------------
+# shrinking a failing input (drop whole fragments / neurons / attachments while the oracle still fails)
+# ---------------------------------------------------------------------------------------------
+class _Probe:
+    """records oracle failures of one case without touching the real context's bookkeeping"""
+
+    def __init__(self, ctx):
+        self._ctx, self.failed, self.what = ctx, False, None
+        self.rng, self.seed = ctx.rng, ctx.seed
+
+    def ask(self, line):
+        return self._ctx.ask(line)
+
+    def oracle(self, ok, what, case, signature=None, **kw):
+        if not ok and not (signature and self._ctx.match_known(signature)):
+            if not self.failed:
+                self.what = what
+            self.failed = True
+        return ok
+
+    def corr(self, impl, model, what, case, signature=None):
+        return impl == model
+
+    def count(self, *a, **k):
+        pass
+
+    def case(self, *a, **k):
+        pass
+
+    def quick(self):
+        return True
+
+
+def _fails(ctx, case):
+    pr = _Probe(ctx)
+    be = case.get('be')
+    try:
+        if be:
+            with backend(be):
+                RUNNERS[case['kind']](pr, case, be)
+        else:
+            RUNNERS[case['kind']](pr, case, None)
+    except Exception:
+        return None
+    return pr.what if pr.failed else None
+
+
+def shrink(ctx, failure):
+    case = failure['case']
+    if not isinstance(case, dict) or case.get('kind') not in ('heal', 'stitch') or _fails(ctx, case) is None:
+        return None
+    what = failure['what']
+    changed = True
+    while changed:
+        changed = False
+        if case['kind'] == 'heal':
+            fm = frag_map(case['rows'])
+            for f in sorted(set(fm.values())):
+                if len(set(fm.values())) <= 2:
+                    break
+                rows = [r for r in case['rows'] if fm[r['id']] != f]
+                keep = {r['id'] for r in rows}
+                c2 = dict(case, rows=rows, mask=(None if case.get('mask') is None else [i for i in case['mask'] if i in keep]))
+                w = _fails(ctx, c2)
+                if w:
+                    case, what, changed = c2, w, True
+                    break
+        else:
+            ns = case['neurons']
+            for j in range(len(ns)):
+                if len(ns) > 2:
+                    c2 = dict(case, neurons=ns[:j] + ns[j + 1:])
+                    w = _fails(ctx, c2)
+                    if w:
+                        case, what, changed = c2, w, True
+                        break
+            if not changed:
+                for j, nn in enumerate(ns):
+                    for key, empty in (('conns', []), ('tags', {})):
+                        if nn[key]:
+                            n2 = ns[:j] + [dict(nn, **{key: empty})] + ns[j + 1:]
+                            c2 = dict(case, neurons=n2)
+                            w = _fails(ctx, c2)
+                            if w:
+                                case, what, changed = c2, w, True
+                                break
+                    if changed:
+                        break
+    return dict(failure, case=case, what=what)
